@@ -53,4 +53,31 @@ for status in ["RUNNING", "FAILED", "DONE"]:
         shown = ex.status
         if (ex.id in got) != (shown == status) and shape["reachable"]:
             mism.append(dict(kind="execution", filter=status, root_job_row=shape, displayed=shown, returned_by_filter=ex.id in got))
-finish(bool(mism), witness=mism[:3], evaluations=n, bound="complete finite row domain (end_time x cached x value type), reachable shapes only")
+# multi-job executions: the execution filters look at the execution's root job only, not at any job of the execution
+from redun.backends.db import Job as _J
+k = 0
+for root_shape, child_shape in itertools.product([(now, False, "ok"), (now, False, "err"), (None, False, None), (now, True, "ok")], repeat=2):
+    k += 1
+    exid = f"mx{k:02d}"
+    ids = []
+    for role, (end, cached, vtype) in (("root", root_shape), ("child", child_shape)):
+        jid = f"{exid}-{role}"
+        ch = None
+        if vtype:
+            ch = f"{k:038d}{'r' if role == 'root' else 'c'}0"
+            s.add(CallNode(call_hash=ch, task_name="f", task_hash="t" * 40, args_hash="a" * 40, value_hash=("e" if vtype == "err" else "v") * 40))
+        ids.append(jid)
+        s.add(_J(id=jid, start_time=now, end_time=end, cached=cached, call_hash=ch, task_hash="t" * 40, execution_id=exid, parent_id=(ids[0] if role == "child" else None)))
+    s.add(Execution(id=exid, args="[]", job_id=ids[0]))
+s.commit()
+for status in ["RUNNING", "FAILED", "DONE"]:
+    got = {e.id for e in CallGraphQuery(s).filter_types(["Execution"]).filter_execution_statuses([status]).all() if isinstance(e, Execution)}
+    for ex in s.query(Execution).filter(Execution.id.like("mx%")).all():
+        n += 1
+        ex._status = None
+        ex.job._status = None
+        shown = ex.status
+        if (ex.id in got) != (shown == status):
+            mism.append(dict(kind="execution with a child job", filter=status, execution=ex.id, displayed=shown, returned_by_filter=ex.id in got,
+                             jobs=[(j.id, bool(j.end_time), j.cached) for j in s.query(_J).filter_by(execution_id=ex.id).all()]))
+finish(bool(mism), witness=mism[:3], evaluations=n, bound="16 two-job executions (root x child status), complete finite row domain (end_time x cached x value type), reachable shapes only")
